@@ -259,6 +259,10 @@ public:
         if (E != S0)
           J.attribute("Ti", typeStr(E->getType()));
         macroChain(E->getBeginLoc());
+        // "mw": the whole expression (first to last token) comes out of one top-level macro expansion
+        if (E->getBeginLoc().isMacroID() && E->getEndLoc().isMacroID() &&
+            SM.getExpansionLoc(E->getBeginLoc()) == SM.getExpansionLoc(E->getEndLoc()))
+          J.attribute("mw", 1);
         if (!E->isValueDependent() && !E->isTypeDependent() && !E->getType().isNull() &&
             E->getType()->isIntegralOrEnumerationType()) {
           Expr::EvalResult R;
